@@ -11,6 +11,7 @@ import (
 	"time"
 
 	"github.com/Comcast/sheens/core"
+	"github.com/Comcast/sheens/interpreters"
 	"github.com/Comcast/sheens/match"
 	"github.com/Comcast/sheens/sio"
 	"github.com/jsccast/yaml"
@@ -48,7 +49,7 @@ type TotalCase struct {
 
 var mutKinds = []string{"nullNode", "nullBranching", "nullBranchList", "nullBranch", "nullAction", "nullGuard", "nullPattern",
 	"badInterpreter", "badGuardInterpreter", "badSyntax", "jsonSyntax", "badBranchType", "emptyNodeName", "badTarget", "badErrorNode",
-	"numberSource", "objectSource", "stringNode", "listNodes", "stringBranches", "numberPattern", "nullNodes", "noNodes", "badJSONPattern", "nullSource"}
+	"numberSource", "objectSource", "arraySource", "guardObjectSource", "guardArraySource", "guardNumberSource", "guardNullSource", "bootObjectSource", "stringNode", "listNodes", "stringBranches", "numberPattern", "nullNodes", "noNodes", "badJSONPattern", "nullSource"}
 
 func genTotal(t *rapid.T) TotalCase {
 	o := sm.SpecOpts{NativeToo: true, InPlace: true, Fail: 5, GuardFail: 4, Emit: true, UserErrorNode: true, Spin: true}
@@ -215,6 +216,28 @@ func applyMut(doc map[string]interface{}, m Mut, yamlKeys bool) {
 		if n != nil {
 			n["action"] = map[string]interface{}{"interpreter": "ecmascript", "source": map[string]interface{}{"a": 1.0}}
 		}
+	case "arraySource":
+		if n != nil {
+			n["action"] = map[string]interface{}{"interpreter": "ecmascript", "source": []interface{}{"return _.bindings;"}}
+		}
+	case "guardObjectSource":
+		if br != nil {
+			br["guard"] = map[string]interface{}{"interpreter": "noop", "source": map[string]interface{}{"allow": "always"}}
+		}
+	case "guardArraySource":
+		if br != nil {
+			br["guard"] = map[string]interface{}{"interpreter": "ecmascript", "source": []interface{}{"return _.bindings;"}}
+		}
+	case "guardNumberSource":
+		if br != nil {
+			br["guard"] = map[string]interface{}{"interpreter": "ecmascript", "source": 7.0}
+		}
+	case "guardNullSource":
+		if br != nil {
+			br["guard"] = map[string]interface{}{"interpreter": "ecmascript", "source": nil}
+		}
+	case "bootObjectSource":
+		doc["boot"] = map[string]interface{}{"interpreter": "ecmascript", "source": map[string]interface{}{"a": []interface{}{1.0}}}
 	case "nullSource":
 		if n != nil {
 			n["action"] = map[string]interface{}{"interpreter": "ecmascript", "source": nil}
@@ -324,7 +347,11 @@ func checkTotal(c TotalCase) (v ev.Verdict) {
 		}
 	}
 	var cerr error
-	if p, hung := withWatchdog(20*time.Second, func() { cerr = spec.Compile(context.Background(), sm.Interpreters(), true) }); p != "" || hung {
+	ints := core.Interpreters(sm.Interpreters())
+	if c.Load != "go" {
+		ints = interpreters.Standard() // what mcrew, msimple and mdb use
+	}
+	if p, hung := withWatchdog(20*time.Second, func() { cerr = spec.Compile(context.Background(), ints, true) }); p != "" || hung {
 		v.Failf("Compile panicked or hung (hung=%v) on document mutations %s: %s", hung, ev.JS(c.Muts), p)
 		return
 	}
